@@ -1,6 +1,7 @@
 package vc
 
 import (
+	"math"
 	"encoding/json"
 	"fmt"
 	"os"
@@ -230,6 +231,27 @@ func RunCheck(w *World, o CheckOpts) int {
 		violations++
 		fmt.Printf("VIOLATION property=%s replay=%s obligation=none (no obligations were generated) no-failing-input-found\n", o.Prop, filepath.Join(replayDir, "none.txt"))
 	}
+	// the functions under check, with whether they carry a written contract and how many obligations each produced
+	var fnList []map[string]interface{}
+	for _, fo := range outs {
+		if fo == nil || fo.rejected != "" {
+			continue
+		}
+		ct := w.Contracts[fo.key]
+		kind := "no written contract (generated obligations only)"
+		if ct != nil {
+			kind = "written contract"
+			if len(ct.Assumes) > 0 || ct.AssignsAssumed {
+				kind = "written contract with ASSUMED clauses"
+			}
+		}
+		secs := 0.0
+		for _, r := range fo.results {
+			secs += r.Seconds
+		}
+		fnList = append(fnList, map[string]interface{}{"function": fo.key, "contract": kind, "obligations": len(fo.results), "solver_seconds": math.Round(secs*100) / 100})
+	}
+	sort.Slice(fnList, func(i, j int) bool { return fnList[i]["function"].(string) < fnList[j]["function"].(string) })
 	var assumptions []string
 	for a := range assume {
 		assumptions = append(assumptions, a)
@@ -237,7 +259,7 @@ func RunCheck(w *World, o CheckOpts) int {
 	sort.Strings(assumptions)
 	assumptions = append(assumptions, p.Assume...)
 	assumptions = append(assumptions, "go/packages+go/ssa (x/tools v0.29.0) as the semantics of Go; z3 4.8.12, z3 5.1.0, cvc5 1.0.3; govc itself")
-	assumptions = append(assumptions, "in-memory sizes (slice lengths, capacities, stream lengths) are below 2^62")
+	assumptions = append(assumptions, "in-memory sizes (slice lengths, capacities, stream lengths and positions) are below 2^47; machine integers are bit-vectors of their Go width (wrapping), mathematical integers in contracts are 128-bit (256-bit for big.Int)")
 	ev := map[string]interface{}{
 		"property_id": o.Prop, "tier": o.Tier, "seed": o.Seed, "level": "proof",
 		"coverage": map[string]interface{}{
@@ -245,6 +267,7 @@ func RunCheck(w *World, o CheckOpts) int {
 			"checker_cmd":             fmt.Sprintf("bin/govc check %s --tier %s", o.Prop, o.Tier),
 			"trusted_base":            []string{"go/ssa of x/tools v0.29.0", "z3 4.8.12", "z3 5.1.0", "cvc5 1.0.3", "govc VC generator", "assumed contracts of external functions (see assumptions)"},
 			"functions_under_check":   funcs,
+			"functions":               fnList,
 			"functions_out_of_subset": rejected,
 			"by_backend":              bySolver,
 			"by_class":                byClass,
